@@ -30,17 +30,26 @@ def child_probe(ctx, cls, attr, t, rng):
     """construct an instance holding the child, write it, read it back: -> None or (key, what, replay)"""
     T = ctx.Types
     obj = None
+    lost = None
+    cn = cls.__name__
     for _ in range(8):
-        cand = H.gen_instance(ctx, cls, rng, depth=1, full=0.15, force=attr)
-        if cand is None:
+        args, kw = H.gen_args(ctx, cls, rng, 1, 0.15, force=attr)
+        try:
+            with warnings.catch_warnings():
+                warnings.simplefilter("ignore")
+                cand = cls(*args, **kw)
+        except Exception:
             continue
         if isinstance(t, (T.ListAggregate, T.ListElement)):
             ok = len(cand) > 0 and (isinstance(t, T.ListElement) or any(type(m).__name__.lower() == attr for m in cand))
         else:
             ok = cand.__dict__.get(attr) is not None
+            if not ok and kw.get(attr) not in (None, ""):
+                lost = repr(kw.get(attr))[:80]     # the constructor took the child and the instance does not hold it
         if ok:
             obj = cand; break
-    cn = cls.__name__
+    if obj is None and lost is not None:
+        return ("%s.%s:given-but-not-held" % (cn, attr), "%s(%s=%s) is accepted but the instance does not hold %s: the declared child cannot be built" % (cn, attr, lost, attr), {"cls": cn, "attr": attr})
     if obj is None:
         # is it the generator or the class?  try the direct way once
         try:
